@@ -42,6 +42,10 @@ pub enum Kind {
     Cw20AccountsEmptied,
     Cw20OwnerAllowances,
     Cw20SpenderAllowances,
+    /// the allowance listings after `migrate` from the pre-0.14 layout (no per-spender index)
+    Cw20Migrated { by_spender: bool },
+    /// the allowance listings after a subset of mutual grants was fully revoked (and some re-granted)
+    Cw20Revoked { by_spender: bool },
     /// cw1-subkeys AllAllowances; pattern of expiring entries and the block of the query
     Cw1Allowances(ExpPattern, At),
     Cw1Permissions,
@@ -116,6 +120,10 @@ pub fn listings() -> Vec<Listing> {
         l("cw20-base/AllAccounts[emptied-runs]", Cw20AccountsEmptied, "all_accounts", "accounts", None, "start_after", false, false, 0),
         l("cw20-base/AllAllowances", Cw20OwnerAllowances, "all_allowances", "allowances", Some("spender"), "start_after", false, false, 0),
         l("cw20-base/AllSpenderAllowances", Cw20SpenderAllowances, "all_spender_allowances", "allowances", Some("owner"), "start_after", false, false, 0),
+        l("cw20-base/AllAllowances[after-migration-from-0.13]", Cw20Migrated { by_spender: false }, "all_allowances", "allowances", Some("spender"), "start_after", false, false, 0),
+        l("cw20-base/AllSpenderAllowances[after-migration-from-0.13]", Cw20Migrated { by_spender: true }, "all_spender_allowances", "allowances", Some("owner"), "start_after", false, false, 0),
+        l("cw20-base/AllAllowances[after-revocations]", Cw20Revoked { by_spender: false }, "all_allowances", "allowances", Some("spender"), "start_after", false, false, 0),
+        l("cw20-base/AllSpenderAllowances[after-revocations]", Cw20Revoked { by_spender: true }, "all_spender_allowances", "allowances", Some("owner"), "start_after", false, false, 0),
         l("cw1-subkeys/AllAllowances[mix@before-expiry]", Cw1Allowances(ExpPattern::Mix, At::Before), "all_allowances", "allowances", Some("spender"), "start_after", false, true, 0),
         l("cw1-subkeys/AllAllowances[mix@height-expired]", Cw1Allowances(ExpPattern::Mix, At::Mid), "all_allowances", "allowances", Some("spender"), "start_after", false, true, 0),
         l("cw1-subkeys/AllAllowances[mix@all-expired]", Cw1Allowances(ExpPattern::Mix, At::After), "all_allowances", "allowances", Some("spender"), "start_after", false, true, 0),
@@ -193,7 +201,18 @@ macro_rules! vt_fn {
     };
 }
 
-vt_fn!(vt_cw20, "cw20-base", cw20_base::contract, cw20_base::msg::InstantiateMsg, cw20_base::msg::ExecuteMsg, cw20_base::msg::QueryMsg);
+pub fn vt_cw20() -> &'static ContractVt {
+    static VT: OnceLock<ContractVt> = OnceLock::new();
+    VT.get_or_init(|| {
+        let mut v = mc::contract_vt!("cw20-base", cw20_base::contract, cw20_base::msg::InstantiateMsg, cw20_base::msg::ExecuteMsg, cw20_base::msg::QueryMsg);
+        fn mig(d: cosmwasm_std::DepsMut, e: cosmwasm_std::Env, m: &[u8]) -> Result<cosmwasm_std::Response, String> {
+            let msg: cw20_base::msg::MigrateMsg = cosmwasm_std::from_json(m).map_err(|e| e.to_string())?;
+            cw20_base::contract::migrate(d, e, msg).map_err(|e| e.to_string())
+        }
+        v.migrate = Some(mig);
+        v
+    })
+}
 vt_fn!(vt_cw1, "cw1-subkeys", cw1_subkeys::contract, cw1_whitelist::msg::InstantiateMsg, cw1_subkeys::msg::ExecuteMsg, cw1_subkeys::msg::QueryMsg);
 vt_fn!(vt_fixed, "cw3-fixed-multisig", cw3_fixed_multisig::contract, cw3_fixed_multisig::msg::InstantiateMsg, cw3_fixed_multisig::msg::ExecuteMsg, cw3_fixed_multisig::msg::QueryMsg);
 vt_fn!(vt_flex, "cw3-flex-multisig", cw3_flex_multisig::contract, cw3_flex_multisig::msg::InstantiateMsg, cw3_flex_multisig::msg::ExecuteMsg, cw3_flex_multisig::msg::QueryMsg);
@@ -296,6 +315,8 @@ impl Listing {
             Kind::Cw20AccountsEmptied => cw20_accounts_emptied(n),
             Kind::Cw20OwnerAllowances => cw20_owner_allowances(n),
             Kind::Cw20SpenderAllowances => cw20_spender_allowances(n),
+            Kind::Cw20Migrated { by_spender } => cw20_migrated(n, by_spender),
+            Kind::Cw20Revoked { by_spender } => cw20_revoked(n, by_spender),
             Kind::Cw1Allowances(p, at) => cw1_allowances(n, p, at),
             Kind::Cw1Permissions => cw1_permissions(n),
             Kind::FixedProposals { reverse } => proposals(n, false, reverse),
@@ -474,6 +495,186 @@ fn cw20_spender_allowances(n: usize) -> Result<Built, String> {
     }
     let stored = expected.iter().map(|(k, _)| k.clone()).collect();
     Ok(b.done(c, args(&[("spender", json!(spender))]), expected, stored))
+}
+
+/// remove every key of a cw-storage-plus namespace (2-byte big-endian length + name) from a raw store
+fn wipe_namespace(w: &mut World, contract: &str, ns: &str) -> usize {
+    let mut prefix = vec![(ns.len() >> 8) as u8, (ns.len() & 0xff) as u8];
+    prefix.extend_from_slice(ns.as_bytes());
+    let inst = w.contracts.get_mut(contract).unwrap();
+    let keys: Vec<Vec<u8>> = inst.store.0.keys().filter(|k| k.starts_with(&prefix)).cloned().collect();
+    let kv = std::sync::Arc::make_mut(&mut inst.store.0);
+    for k in &keys {
+        kv.remove(k);
+    }
+    keys.len()
+}
+
+/// A token in the pre-0.14 layout (no per-spender index, cw2 version 0.13.4) that is migrated with
+/// the real `migrate`. One owner grants to n spenders (AllAllowances{owner} has n items); n owners
+/// each grant to the same seven spenders, the listed one sorting last within each owner's group
+/// (AllSpenderAllowances{spender} has n items), so that owners with several spenders lie across
+/// every multiple of 30 in the (owner, spender) key order.
+fn cw20_migrated(n: usize, by_spender: bool) -> Result<Built, String> {
+    let mut b = B::new();
+    let c = a("contract-cw20");
+    let owner = a("owner");
+    cw20_instantiate(&mut b, &c, vec![json!({"address": owner, "amount": "1000"})])?;
+    let mut sp: Vec<String> = (0..7).map(|k| a(&format!("mig-spender{k}"))).collect();
+    sp.sort();
+    let target = sp[6].clone();
+    for i in 0..n {
+        b.exec(
+            &owner,
+            &c,
+            json!({"increase_allowance": {"spender": user(i), "amount": (i + 1).to_string(), "expires": cw20_expiry(i)}}),
+        )?;
+        for (k, s) in sp.iter().enumerate() {
+            b.exec(
+                &user(i),
+                &c,
+                json!({"increase_allowance": {"spender": s, "amount": (100 * k + i + 1).to_string(), "expires": cw20_expiry(i + k)}}),
+            )?;
+        }
+    }
+    // back to the layout written by cw20-base < 0.14: no per-spender index, old cw2 version
+    let wiped = wipe_namespace(&mut b.w, &c, "allowance_spender");
+    if wiped != 8 * n {
+        return Err(format!("expected {} entries in the allowance_spender namespace, wiped {wiped}", 8 * n));
+    }
+    {
+        let inst = b.w.contracts.get_mut(&c).unwrap();
+        cw2::set_contract_version(&mut inst.store, "crates.io:cw20-base", "0.13.4").map_err(|e| e.to_string())?;
+    }
+    if n > 0 {
+        let r = b.point(&c, json!({"all_spender_allowances": {"spender": target, "limit": 30}}))?;
+        if r["allowances"] != json!([]) {
+            return Err(machinery("all_spender_allowances (index wiped)", &target, &r));
+        }
+    }
+    b.calls += 1;
+    let out = b.w.migrate(&c, b"{}");
+    if let Err(e) = out.res {
+        return Err(format!("migrate from 0.13.4 failed: {e}"));
+    }
+    let mut expected = vec![];
+    for (addr, i) in sorted_users(n) {
+        if by_spender {
+            let r = b.point(&c, json!({"allowance": {"owner": addr, "spender": target}}))?;
+            if r["allowance"] != json!((600 + i + 1).to_string()) {
+                return Err(machinery("allowance", &addr, &r));
+            }
+            expected.push((Key::S(addr.clone()), json!({"owner": addr, "allowance": r["allowance"], "expires": r["expires"]})));
+        } else {
+            let r = b.point(&c, json!({"allowance": {"owner": owner, "spender": addr}}))?;
+            if r["allowance"] != json!((i + 1).to_string()) {
+                return Err(machinery("allowance", &addr, &r));
+            }
+            expected.push((Key::S(addr.clone()), json!({"spender": addr, "allowance": r["allowance"], "expires": r["expires"]})));
+        }
+    }
+    let stored = expected.iter().map(|(k, _)| k.clone()).collect();
+    let args = if by_spender { args(&[("spender", json!(target))]) } else { args(&[("owner", json!(owner))]) };
+    Ok(b.done(c, args, expected, stored))
+}
+
+/// positions (in key order) whose grant TO the principal is revoked: the runs of `emptied_positions`
+/// shifted, so that they overlap the other direction's runs only partly
+fn shifted_positions(n: usize) -> Vec<usize> {
+    if n < 2 {
+        return vec![];
+    }
+    let r = if n >= 6 { (n / 6).min(5) } else { 1 };
+    let s = (r + 1) / 2;
+    let mut v: Vec<usize> = emptied_positions(n).iter().map(|p| (p + s) % n).collect();
+    v.sort();
+    v.dedup();
+    v
+}
+
+/// Mutual grants between one principal P and n users (P -> u_i and u_i -> P), then full revocations
+/// with DecreaseAllowance{amount >= allowance} of runs at the start / middle / end of the key order
+/// (different, partly overlapping runs for the two directions), partial decreases, and re-grants of
+/// some revoked pairs. AllAllowances{owner: P} and AllSpenderAllowances{spender: P} must list exactly
+/// the pairs whose Allowance point query is non-zero, with that amount.
+fn cw20_revoked(n: usize, by_spender: bool) -> Result<Built, String> {
+    let mut b = B::new();
+    let c = a("contract-cw20");
+    let p = a("principal");
+    cw20_instantiate(&mut b, &c, vec![json!({"address": p, "amount": "1000"})])?;
+    let sorted = sorted_users(n);
+    let out_amt = |i: usize| (i + 10) as u128; // P -> u_i
+    let in_amt = |i: usize| (i + 50) as u128; // u_i -> P
+    for i in 0..n {
+        b.exec(&p, &c, json!({"increase_allowance": {"spender": user(i), "amount": out_amt(i).to_string(), "expires": cw20_expiry(i)}}))?;
+        b.exec(&user(i), &c, json!({"increase_allowance": {"spender": p, "amount": in_amt(i).to_string(), "expires": cw20_expiry(i + 1)}}))?;
+    }
+    // noise around the principal: other owners / spenders with the same users
+    for k in 0..2 {
+        let o = a(&format!("noise-owner{k}"));
+        for i in 0..n.min(3) {
+            b.exec(&o, &c, json!({"increase_allowance": {"spender": user(i), "amount": "7", "expires": null}}))?;
+            b.exec(&user(i), &c, json!({"increase_allowance": {"spender": o, "amount": "7", "expires": null}}))?;
+        }
+    }
+    let r_out = emptied_positions(n);
+    let r_in = shifted_positions(n);
+    let mut out_ref: Vec<u128> = (0..n).map(out_amt).collect();
+    let mut in_ref: Vec<u128> = (0..n).map(in_amt).collect();
+    for (k, pos) in r_out.iter().enumerate() {
+        let (addr, i) = &sorted[*pos];
+        // exactly the allowance, or more than it: both take the removal branch
+        let amt = out_ref[*i] + (k % 2) as u128 * 1000;
+        b.exec(&p, &c, json!({"decrease_allowance": {"spender": addr, "amount": amt.to_string(), "expires": null}}))?;
+        out_ref[*i] = 0;
+    }
+    for (k, pos) in r_in.iter().enumerate() {
+        let (addr, i) = &sorted[*pos];
+        let amt = in_ref[*i] + ((k + 1) % 2) as u128 * 1000;
+        b.exec(addr, &c, json!({"decrease_allowance": {"spender": p, "amount": amt.to_string(), "expires": null}}))?;
+        in_ref[*i] = 0;
+    }
+    // partial decreases (the allowance stays)
+    for (pos, (addr, i)) in sorted.iter().enumerate() {
+        if pos % 7 == 3 && out_ref[*i] > 1 {
+            b.exec(&p, &c, json!({"decrease_allowance": {"spender": addr, "amount": "1", "expires": null}}))?;
+            out_ref[*i] -= 1;
+        }
+        if pos % 7 == 5 && in_ref[*i] > 2 {
+            b.exec(addr, &c, json!({"decrease_allowance": {"spender": p, "amount": "2", "expires": null}}))?;
+            in_ref[*i] -= 2;
+        }
+    }
+    // every other revoked pair is granted again
+    for pos in r_out.iter().step_by(2) {
+        let (addr, i) = &sorted[*pos];
+        b.exec(&p, &c, json!({"increase_allowance": {"spender": addr, "amount": "3", "expires": null}}))?;
+        out_ref[*i] = 3;
+    }
+    for pos in r_in.iter().skip(1).step_by(2) {
+        let (addr, i) = &sorted[*pos];
+        b.exec(addr, &c, json!({"increase_allowance": {"spender": p, "amount": "5", "expires": null}}))?;
+        in_ref[*i] = 5;
+    }
+    let mut expected = vec![];
+    for (addr, i) in &sorted {
+        let (q, want) = if by_spender {
+            (json!({"allowance": {"owner": addr, "spender": p}}), in_ref[*i])
+        } else {
+            (json!({"allowance": {"owner": p, "spender": addr}}), out_ref[*i])
+        };
+        let r = b.point(&c, q)?;
+        if r["allowance"] != json!(want.to_string()) {
+            return Err(machinery("allowance (0 = revoked)", addr, &r));
+        }
+        if want != 0 {
+            let who = if by_spender { "owner" } else { "spender" };
+            expected.push((Key::S(addr.clone()), json!({who: addr, "allowance": r["allowance"], "expires": r["expires"]})));
+        }
+    }
+    let stored = sorted.iter().map(|(s, _)| Key::S(s.clone())).collect();
+    let args = if by_spender { args(&[("spender", json!(p))]) } else { args(&[("owner", json!(p))]) };
+    Ok(b.done(c, args, expected, stored))
 }
 
 fn cw1_instantiate(b: &mut B, c: &str) -> Result<String, String> {
